@@ -136,7 +136,7 @@ def judge(doc, nd=3):
     try: out = SVG.fromstring(doc).topicosvg(ndigits=nd).tostring()
     except ValueError as e:
         # a duplicate id reported by the final gate although the source's ids are unique was introduced by the conversion
-        if 'reuses id' in str(e):
+        if 'reuses id' in str(e) or re.search(r'matches in range\(1, 2\), ([2-9]|\d\d+) results', str(e)):
             src_ids = ids_of(etree.fromstring(doc.encode()))
             if len(src_ids) == len(set(src_ids)):
                 return ('instancing / splitting / cloning never introduce a duplicate id', 'unique ids (the source has unique ids)', {'raised': str(e)[:400]})
